@@ -175,14 +175,22 @@ def St.flushStop (s : St) : St := (s.advance.recede).commit
 
 /-! ### Stop / Start -/
 
-/-- `Stop` then a fresh `Store` started on the same datastore (`init` + `readByKey`) -/
-def St.restart (s : St) : St :=
-  let s1 := s.sync.flushStop
-  let hp := match s1.headPtr with | some h => if h ∈ s1.hdr then some h else none | none => none
-  let tp := match s1.tailPtr with | some t => if t ∈ s1.hdr then some t else none | none => none
-  { batch := s1.batch, hdr := s1.hdr, idx := s1.idx, headPtr := hp, tailPtr := tp,
-    pending := [], head := hp, tail := tp, hs := (match hp with | some h => h | none => 0),
+/-- `readByKey`: a pointer whose header is missing is dropped -/
+def resolvePtr (ptr : Option Nat) (hdr : HSet) : Option Nat :=
+  match ptr with
+  | some h => if h ∈ hdr then some h else none
+  | none => none
+
+/-- a fresh `Store` started on the datastore of `s1` (`init` + `readByKey`) -/
+def St.reopen (s1 : St) : St :=
+  { batch := s1.batch, hdr := s1.hdr, idx := s1.idx,
+    headPtr := resolvePtr s1.headPtr s1.hdr, tailPtr := resolvePtr s1.tailPtr s1.hdr,
+    pending := [], head := resolvePtr s1.headPtr s1.hdr, tail := resolvePtr s1.tailPtr s1.hdr,
+    hs := (match resolvePtr s1.headPtr s1.hdr with | some h => h | none => 0),
     queue := [], handlers := s1.handlers, calls := [] }
+
+/-- `Stop` (drain the queue, final flush) then a fresh `Store` started on the same datastore -/
+def St.restart (s : St) : St := s.sync.flushStop.reopen
 
 /-! ### DeleteRange -/
 
@@ -231,12 +239,18 @@ def St.delLoop (s : St) (a : Nat) : Nat → St × Option Nat
       else (s.afterHandlers a, some a)
     else s.delLoop (a+1) n        -- "attempt to delete header that's not found": skipped
 
-/-- `setTail(to)` -/
+/-- `head.IsZero() || to > head.Height()` in `setTail` -/
+def St.tailOver (s : St) (to : Nat) : Bool :=
+  match s.head with
+  | none => true
+  | some hd => decide (to > hd)
+
+/-- `setTail(to)`: the head follows when the new tail lies above it (or the head is unset) -/
 def St.setTail (s : St) (to : Nat) : St × Bool :=
   if !s.lookup to then (s, false) else
-  let s1 := { s with tail := some to, tailPtr := some to }
-  let over := match s1.head with | none => true | some hd => decide (to > hd)
-  if over then (({ s1 with head := some to, headPtr := some to }).advance, true) else (s1, true)
+  if s.tailOver to then
+    (({ s with tail := some to, tailPtr := some to, head := some to, headPtr := some to } : St).advance, true)
+  else ({ s with tail := some to, tailPtr := some to }, true)
 
 /-- `setHead(to)` -/
 def St.setHead (s : St) (to : Nat) : St × Bool :=
